@@ -43,6 +43,24 @@ Proof.
 Qed.
 Print Assumptions C37_values_merge_is_union_second_wins.
 
+(** Algebraic laws that make Merge "set algebra" (consequences of the finite-map view, stated
+    outright): on strictly sorted arrays Merge is associative and idempotent, the empty array
+    is a two-sided identity, merging the same array in a second time changes nothing, and the
+    two implementations (cursors.*Array.Merge, tsm1 *Values.Merge) compute the same function. *)
+Theorem C37_merge_algebra :
+  forall (V : Type) (a b c : arr V), ssorted a -> ssorted b -> ssorted c ->
+    arr_merge (arr_merge a b) c = arr_merge a (arr_merge b c) /\
+    arr_merge a a = a /\ arr_merge [] a = a /\ arr_merge a [] = a /\
+    arr_merge (arr_merge a b) b = arr_merge a b /\
+    vals_merge a b = arr_merge a b.
+Proof.
+  intros V a b c Ha Hb Hc.
+  split; [apply merge_assoc; auto|]. split; [apply merge_idem; auto|].
+  split; [apply merge_nil_l; auto|]. split; [apply merge_nil_r; auto|].
+  split; [apply merge_absorb; auto | apply vals_merge_eq_arr_merge; auto].
+Qed.
+Print Assumptions C37_merge_algebra.
+
 (** tsm1 Values.Merge on ARBITRARY (unsorted, duplicated) inputs: returns the other array
     untouched if one is empty, else the union of the two deduplicated arrays. *)
 Theorem C37_values_merge_unsorted_inputs :
